@@ -14,7 +14,11 @@
      the handles stored in the dict (theorem exchange_key_fresh: an entry is never overwritten);
    * random.uniform(lo, hi) is  lo + (hi - lo) * n / 1000  for the next n of a scripted stream [rng]
      (the harness stub does the same integer arithmetic on the arguments it is called with);
-   * only confirmable messages are sent, so the `while` of _continue_backlog runs its body at most once. *)
+   * only confirmable messages go through send_message; the `while` of _continue_backlog is a loop on fuel (it runs its body
+     once when the released message is accepted by the transport, twice when it is refused);
+   * a transport that refuses a datagram synchronously (udp6: sendmsg fails, error_received -> MessageManager.dispatch_error
+     from INSIDE message_interface.send) is the set [refusing] of remotes; nothing reaches the wire for them;
+   * a request id that is not pending in the token manager stands for an unknown token. *)
 From Verif Require Import Lib.Py.
 Open Scope Z_scope.
 
@@ -36,14 +40,17 @@ Record state := {
   active_exchanges : list ((Z * Z) * (Z * timer));   (* messagemanager.py:50  (remote, mid) -> (monitor, handle) *)
   backlogs : list (Z * list (message * Z));          (* messagemanager.py:55  remote -> [(message, monitor)] *)
   outgoing_requests : list (Z * Z);                  (* tokenmanager.py: pending Request objects (rid, remote) *)
-  rng : list Z                                       (* scripted stream behind random.uniform *)
+  rng : list Z;                                      (* scripted stream behind random.uniform *)
+  refusing : list Z                                  (* remotes whose datagrams the transport refuses synchronously *)
 }.
 
 Inductive output :=
 | OSend (t : Z) (m : message)            (* message_interface.send(message) *)
 | ODraw (t lo hi v : Z)                  (* random.uniform(lo, hi) returned v *)
 | OFail (t rid : Z) (e : exn)            (* Request.response got this exception *)
-| OError (t : Z) (e : exn).              (* an exception escaped a MessageManager method *)
+| OError (t : Z) (e : exn)               (* an exception escaped a MessageManager method *)
+| OResult (t rid : Z)                    (* Request.response got a response message *)
+| OEmpty (t : Z) (is_rst : bool) (r mid : Z).  (* an empty ACK / RST of ours was put on the wire *)
 
 (* ---- dict helpers (python dict on a key with decidable equality) ---- *)
 Definition xget (k : Z * Z) (l : list ((Z * Z) * (Z * timer))) : option (Z * timer) :=
@@ -57,16 +64,16 @@ Definition qset (r : Z) (v : list (message * Z)) (l : list (Z * list (message * 
 
 Definition set_now (st : state) (t : Z) : state :=
   {| now := t; next_seq := next_seq st; message_id := message_id st; active_exchanges := active_exchanges st;
-     backlogs := backlogs st; outgoing_requests := outgoing_requests st; rng := rng st |}.
+     backlogs := backlogs st; outgoing_requests := outgoing_requests st; rng := rng st; refusing := refusing st |}.
 Definition set_exchanges (st : state) x : state :=
   {| now := now st; next_seq := next_seq st; message_id := message_id st; active_exchanges := x;
-     backlogs := backlogs st; outgoing_requests := outgoing_requests st; rng := rng st |}.
+     backlogs := backlogs st; outgoing_requests := outgoing_requests st; rng := rng st; refusing := refusing st |}.
 Definition set_backlogs (st : state) b : state :=
   {| now := now st; next_seq := next_seq st; message_id := message_id st; active_exchanges := active_exchanges st;
-     backlogs := b; outgoing_requests := outgoing_requests st; rng := rng st |}.
+     backlogs := b; outgoing_requests := outgoing_requests st; rng := rng st; refusing := refusing st |}.
 Definition set_outgoing (st : state) o : state :=
   {| now := now st; next_seq := next_seq st; message_id := message_id st; active_exchanges := active_exchanges st;
-     backlogs := backlogs st; outgoing_requests := o; rng := rng st |}.
+     backlogs := backlogs st; outgoing_requests := o; rng := rng st; refusing := refusing st |}.
 
 (* any(r == remote for r, mid in self._active_exchanges.keys()) *)
 Definition has_exchange_with (st : state) (r : Z) : bool :=
@@ -81,7 +88,11 @@ Definition uniform (st : state) (lo hi : Z) : Z * state :=
   let n := match rng st with [] => 0 | n :: _ => n end in
   (lo + (hi - lo) * n / RNG_DEN,
    {| now := now st; next_seq := next_seq st; message_id := message_id st; active_exchanges := active_exchanges st;
-      backlogs := backlogs st; outgoing_requests := outgoing_requests st; rng := tl (rng st) |}).
+      backlogs := backlogs st; outgoing_requests := outgoing_requests st; rng := tl (rng st); refusing := refusing st |}).
+
+Definition set_refusing (st : state) (l : list Z) : state :=
+  {| now := now st; next_seq := next_seq st; message_id := message_id st; active_exchanges := active_exchanges st;
+     backlogs := backlogs st; outgoing_requests := outgoing_requests st; rng := rng st; refusing := l |}.
 
 (* ---- tokenmanager.py ---- *)
 (* request.add_exception(e) on a pending request: the response future fails and on_interest_end pops the entry *)
@@ -89,23 +100,43 @@ Definition tm_fail (st : state) (rid : Z) (e : exn) : state * list output :=
   if existsb (fun q => fst q =? rid) (outgoing_requests st)
   then (set_outgoing st (filter (fun q => negb (fst q =? rid)) (outgoing_requests st)), [OFail (now st) rid e])
   else (st, []).
-(* tokenmanager.py:74-110 dispatch_error: every outstanding request to that remote fails with the exception *)
+(* tokenmanager.py:74-110 dispatch_error: every outstanding request to that remote fails with the exception
+   (an exception that is not a NetworkError is wrapped into one by the caller of this function, see mm_dispatch_error) *)
 Definition tm_dispatch_error (st : state) (e : exn) (r : Z) : state * list output :=
   (set_outgoing st (filter (fun q => negb (snd q =? r)) (outgoing_requests st)),
    map (fun q => OFail (now st) (fst q) e) (filter (fun q => snd q =? r) (outgoing_requests st))).
+(* tokenmanager.py:177 process_response: a response with the token of request [rid] from remote [r];
+   matched iff that request is still pending towards that very remote; it then completes and is forgotten *)
+Definition tm_process_response (st : state) (rid r : Z) : bool * state * list output :=
+  if existsb (fun q => (fst q =? rid) && (snd q =? r)) (outgoing_requests st)
+  then (true, set_outgoing st (filter (fun q => negb (fst q =? rid)) (outgoing_requests st)), [OResult (now st) rid])
+  else (false, st, []).
+(* the requester loses interest (Request.response cancelled): on_interest_end pops the entry; send_message returned no
+   canceller, so nothing is told to the message layer *)
+Definition tm_cancel (st : state) (rid : Z) : state :=
+  set_outgoing st (filter (fun q => negb (fst q =? rid)) (outgoing_requests st)).
 
 (* ---- messagemanager.py ---- *)
+(* messagemanager.py:157 dispatch_error(error, remote), called by the transport -- asynchronously (ICMP) or, for a
+   synchronously refusing transport, from inside message_interface.send; OSError is wrapped into NetworkError *)
+Definition mm_dispatch_error (st : state) (r : Z) : state * list output :=
+  let '(st, o) := tm_dispatch_error st NetworkError r in
+  let st := set_exchanges st (filter (fun e => negb (fst (fst e) =? r)) (active_exchanges st)) in   (* pop + cancel each *)
+  (set_backlogs st (qdel r (backlogs st)), o).                                                        (* _backlogs.pop(remote, ()) *)
+
+Definition is_refusing (st : state) (r : Z) : bool := existsb (fun x => x =? r) (refusing st).
+
 (* messagemanager.py:539 _next_message_id *)
 Definition _next_message_id (st : state) : Z * state :=
   (message_id st,
    {| now := now st; next_seq := next_seq st; message_id := Z.land 65535 (1 + message_id st);
-      active_exchanges := active_exchanges st; backlogs := backlogs st; outgoing_requests := outgoing_requests st; rng := rng st |}).
+      active_exchanges := active_exchanges st; backlogs := backlogs st; outgoing_requests := outgoing_requests st; rng := rng st; refusing := refusing st |}).
 
 (* messagemanager.py:310 _schedule_retransmit: loop.call_later(timeout, retr) *)
 Definition _schedule_retransmit (st : state) (m : message) (timeout counter : Z) : timer * state :=
   ({| h_due := now st + timeout; h_seq := next_seq st; h_message := m; h_timeout := timeout; h_counter := counter |},
    {| now := now st; next_seq := next_seq st + 1; message_id := message_id st; active_exchanges := active_exchanges st;
-      backlogs := backlogs st; outgoing_requests := outgoing_requests st; rng := rng st |}).
+      backlogs := backlogs st; outgoing_requests := outgoing_requests st; rng := rng st; refusing := refusing st |}).
 
 (* messagemanager.py:242 _add_exchange *)
 Definition _add_exchange (st : state) (m : message) (monitor : Z) : state * list output :=
@@ -118,25 +149,39 @@ Definition _add_exchange (st : state) (m : message) (monitor : Z) : state * list
   let '(next_retransmission, st) := _schedule_retransmit st m timeout 0 in
   (set_exchanges st (xset k (monitor, next_retransmission) (active_exchanges st)), [ODraw (now st) lo hi timeout]).
 
-(* messagemanager.py:534 _send_via_transport *)
-Definition _send_via_transport (st : state) (m : message) : list output := [OSend (now st) m].
+(* messagemanager.py:534 _send_via_transport: message_interface.send(message) *)
+Definition _send_via_transport (st : state) (m : message) : state * list output :=
+  if is_refusing st (m_remote m) then mm_dispatch_error st (m_remote m) else (st, [OSend (now st) m]).
 
 (* messagemanager.py:519 _send_initially, for a CON (_store_response_for_duplicates ignores CONs) *)
 Definition _send_initially (st : state) (m : message) (monitor : Z) : state * list output :=
   let '(st, o1) := _add_exchange st m monitor in
-  (st, o1 ++ _send_via_transport st m).
+  let '(st, o2) := _send_via_transport st m in
+  (st, o1 ++ o2).
 
-(* messagemanager.py:287 _continue_backlog *)
+(* messagemanager.py:545 _send_empty_ack / the RST of dispatch_message: _send_initially of an empty ACK / RST *)
+Definition send_empty (st : state) (is_rst : bool) (r mid : Z) : state * list output :=
+  if is_refusing st r then mm_dispatch_error st r else (st, [OEmpty (now st) is_rst r mid]).
+
+(* messagemanager.py:287 _continue_backlog; the while loop on fuel *)
+Fixpoint _continue_backlog_loop (fuel : nat) (st : state) (r : Z) : state * list output :=
+  match fuel with
+  | O => (st, [OError (now st) OutOfFuel])
+  | S fuel =>
+      if has_exchange_with st r then (st, [])
+      else match qget r (backlogs st) with
+           | None => (st, [OError (now st) KeyError])                     (* self._backlogs[remote] *)
+           | Some ((next_message, monitor) :: rest) =>
+               let '(st, o1) := _send_initially (set_backlogs st (qset r rest (backlogs st))) next_message monitor in
+               let '(st, o2) := _continue_backlog_loop fuel st r in
+               (st, o1 ++ o2)
+           | Some [] => (set_backlogs st (qdel r (backlogs st)), [])
+           end
+  end.
 Definition _continue_backlog (st : state) (r : Z) : state * list output :=
   match qget r (backlogs st) with
   | None => (st, [OError (now st) AssertionError])
-  | Some q =>
-      if has_exchange_with st r then (st, [])
-      else match q with
-           | (next_message, monitor) :: rest =>
-               _send_initially (set_backlogs st (qset r rest (backlogs st))) next_message monitor
-           | [] => (set_backlogs st (qdel r (backlogs st)), [])
-           end
+  | Some q => _continue_backlog_loop (2 + length q) st r
   end.
 
 (* messagemanager.py:265 _remove_exchange, called from dispatch_message for every incoming ACK / RST *)
@@ -159,14 +204,14 @@ Definition _retransmit (st : state) (h : timer) : state * list output :=
   | Some (monitor, _) =>
       let st := set_exchanges st (xdel k (active_exchanges st)) in
       if h_counter h <? MAX_RETRANSMIT (m_tuning m) then
-        let o1 := _send_via_transport st m in
+        let '(st, o1) := _send_via_transport st m in
         let retransmission_counter := h_counter h + 1 in
         let timeout := h_timeout h * 2 in
         let '(next_retransmission, st) := _schedule_retransmit st m timeout retransmission_counter in
         (set_exchanges st (xset k (monitor, next_retransmission) (active_exchanges st)), o1)
       else
         match qget (m_remote m) (backlogs st) with
-        | None => (st, [OError (now st) KeyError])
+        | None => (st, [OError (now st) KeyError])                      (* del self._backlogs[message.remote] *)
         | Some _ =>
             let st := set_backlogs st (qdel (m_remote m) (backlogs st)) in
             tm_dispatch_error st ConRetransmitsExceeded (m_remote m)
@@ -189,6 +234,15 @@ Definition send_message (st : state) (rid r : Z) (tn : tuning) : state * list ou
 Definition tm_request (st : state) (rid r : Z) (tn : tuning) : state * list output :=
   send_message (set_outgoing st (outgoing_requests st ++ [(rid, r)])) rid r tn.
 
+(* messagemanager.py:97 dispatch_message for a response (code 2.05) of type ACK (ty 0), CON (1) or NON (2) from r with
+   message id mid and the token of request rid *)
+Definition dispatch_response (st : state) (r ty mid rid : Z) : state * list output :=
+  let '(st, o1) := if ty =? 0 then _remove_exchange st r mid false else (st, []) in
+  let '(success, st, o2) := tm_process_response st rid r in
+  let '(st, o3) :=
+    if ty =? 1 then (if success then send_empty st false r mid else send_empty st true r mid) else (st, []) in
+  (st, o1 ++ o2 ++ o3).
+
 (* ---- the event loop ---- *)
 Definition timer_before (a b : timer) : bool :=
   (h_due a <? h_due b) || ((h_due a =? h_due b) && (h_seq a <? h_seq b)).
@@ -207,7 +261,11 @@ Inductive event :=
 | ERecv (r : Z) (is_rst : bool) (mid : Z)  (* an empty ACK / RST datagram from r *)
 | EWaitUntil (t : Z)                       (* time passes, but never beyond the next pending timer *)
 | EFire                                    (* time passes until the next timer, which fires *)
-| EFireDue.                                (* the next timer fires if it is due now *)
+| EFireDue                                 (* the next timer fires if it is due now *)
+| EError (r : Z)                           (* the transport reports an error for r (ICMP): MessageManager.dispatch_error *)
+| ECancel (rid : Z)                        (* the requester cancels Request.response *)
+| EResponse (r ty mid rid : Z)             (* a 2.05 response datagram from r: ty 0 piggy-backed ACK, 1 CON, 2 NON; token of rid *)
+| ERefuse (r : Z) (on : bool).             (* the transport starts / stops refusing datagrams to r synchronously *)
 
 Definition step (st : state) (e : event) : state * list output :=
   match e with
@@ -226,6 +284,12 @@ Definition step (st : state) (e : event) : state * list output :=
       | Some h => if h_due h <=? now st then _retransmit st h else (st, [])
       | None => (st, [])
       end
+  | EError r => mm_dispatch_error st r
+  | ECancel rid => (tm_cancel st rid, [])
+  | EResponse r ty mid rid => dispatch_response st r ty mid rid
+  | ERefuse r on =>
+      (set_refusing st (if on then r :: filter (fun x => negb (x =? r)) (refusing st)
+                        else filter (fun x => negb (x =? r)) (refusing st)), [])
   end.
 
 (* one output list per event *)
@@ -237,7 +301,7 @@ Fixpoint run (st : state) (evs : list event) : state * list (list output) :=
 
 Definition init (mid0 : Z) (draws : list Z) : state :=
   {| now := 0; next_seq := 0; message_id := mid0; active_exchanges := []; backlogs := [];
-     outgoing_requests := []; rng := draws |}.
+     outgoing_requests := []; rng := draws; refusing := [] |}.
 
 (* what the correspondence run prints: the trace, and the pending timers / backlog sizes at the end *)
 Definition summary (st : state) : list (Z * Z * Z * Z * Z) * list (Z * Z) * list (Z * Z) :=
